@@ -253,7 +253,7 @@ impl Engine for E {
                     "integer arithmetic on u64 and the independently written 2 x 32-bit chunk model are the ground truth for amounts",
                     "group operations plus_point / mul_by_scalar (checked by C20) are used to recompute ciphertext structure",
                     "fixture: GlobalContext::generate(\"verif-c12\") and one BabyStepGiantStep table of size 2^16 per child process",
-                    "decryption is only attempted when every chunk is below 2^32 (most cases below 2^23 to bound the linear search)",
+                    "decryption with the 2^16 table is only attempted when every chunk is below 2^32 (most cases below 2^23 to bound the linear search); aggregates whose low chunks carry are decrypted with a second table of size 2^17 (every sum of two 32-bit chunks is below m^2 = 2^34) and judged against sum_i chunk_sum_i * 2^(32 i) computed in u128",
                     "the `index` field is documented as not bound by the proofs; only its chain semantics (another aggregate as before_amount) is judged",
                     SOUNDNESS,
                 ]);
@@ -270,8 +270,11 @@ impl Engine for E {
                     ("encrypt.structure", 230 * m),
                     ("decrypt.roundtrip", 110 * m),
                     ("decrypt.fixed_randomness", 40 * m),
-                    ("aggregate.decrypt", 75 * m),
-                    ("aggregate.low_chunk_sum_large", 30 * m),
+                    ("aggregate.decrypt", 40 * m),
+                    ("aggregate.low_chunk_carry.high_odd", if quick { 40 } else { 120 }),
+                    ("aggregate.low_chunk_carry.high_even", if quick { 40 } else { 120 }),
+                    ("aggregate.low_chunk_carry.decrypt", if quick { 80 } else { 240 }),
+                    ("aggregate.low_chunk_sum_large", 12 * m),
                     ("transfer.verify.honest", 75 * m),
                     ("transfer.conservation", 65 * m),
                     ("transfer.exceeding.none", 75 * m),
